@@ -266,12 +266,12 @@ def «urcu_ref_get_unless_zero.params» : List String := ["ref"]
 
 /-- `urcu_wait_add` (src/urcu-wait.h) -/
 def «urcu_wait_add» : Stmt :=
-  block [(.prim (some "_t1") (.ext "cds_wfs_push") [.fieldAddr (.var "queue") "stack", .fieldAddr (.var "node") "node"]), (.ret (some (.var "_t1")))]
+  block [(.call (some "_t1") ["u_stack", "node"] [.fieldAddr (.var "queue") "stack", .fieldAddr (.var "node") "node"] «_cds_wfs_push»), (.ret (some (.var "_t1")))]
 def «urcu_wait_add.params» : List String := ["queue", "node"]
 
 /-- `urcu_move_waiters` (src/urcu-wait.h) -/
 def «urcu_move_waiters» : Stmt :=
-  block [(.prim (some "_t1") (.ext "__cds_wfs_pop_all") [.fieldAddr (.var "queue") "stack"]), (.assign "_t2" (.var "_t1")), (.pstore (.fieldAddr (.var "waiters") "head") (.var "_t2"))]
+  block [(.call (some "_t1") ["u_stack"] [.fieldAddr (.var "queue") "stack"] «___cds_wfs_pop_all»), (.assign "_t2" (.var "_t1")), (.pstore (.fieldAddr (.var "waiters") "head") (.var "_t2"))]
 def «urcu_move_waiters.params» : List String := ["waiters", "queue"]
 
 /-- `urcu_wait_set_state` (src/urcu-wait.h) -/
@@ -279,19 +279,24 @@ def «urcu_wait_set_state» : Stmt :=
   block [(.assign "_t1" (.var "state")), (.pstore (.fieldAddr (.var "node") "state") (.var "_t1"))]
 def «urcu_wait_set_state.params» : List String := ["node", "state"]
 
+/-- `_cds_wfs_node_init` (include/urcu/static/wfstack.h) -/
+def «_cds_wfs_node_init» : Stmt :=
+  block [(.assign "_t1" (.null)), (.pstore (.fieldAddr (.var "node") "next") (.var "_t1"))]
+def «_cds_wfs_node_init.params» : List String := ["node"]
+
 /-- `urcu_wait_node_init` (src/urcu-wait.h) -/
 def «urcu_wait_node_init» : Stmt :=
-  block [(.call none ["node", "state"] [.var "node", .var "state"] «urcu_wait_set_state»), (.prim none (.ext "cds_wfs_node_init") [.fieldAddr (.var "node") "node"])]
+  block [(.call none ["node", "state"] [.var "node", .var "state"] «urcu_wait_set_state»), (.call none ["node"] [.fieldAddr (.var "node") "node"] «_cds_wfs_node_init»)]
 def «urcu_wait_node_init.params» : List String := ["node", "state"]
 
 /-- `urcu_adaptative_wake_up` (src/urcu-wait.h) -/
 def «urcu_adaptative_wake_up» : Stmt :=
-  block [(.prim none .ustore [.fieldAddr (.var "wait") "state", .cst "URCU_WAIT_WAKEUP" (1), .cst "CMM_RELEASE" (3)]), (.prim (some "_t1") .uload [.fieldAddr (.var "wait") "state", .cst "CMM_RELAXED" (0)]), (.ifte (.un .lnot (.bin .band (.var "_t1") (.cst "URCU_WAIT_RUNNING" (2)))) (block [(.prim (some "_t2") (.ext "futex_noasync") [.fieldAddr (.var "wait") "state", .cst "FUTEX_WAKE" (1), .lit 1, .null, .null, .lit 0]), (.ifte (.bin .lt (.var "_t2") (.lit 0)) (block [(.prim (some "_t3") (.ext "errno") []), (.prim none (.ext "urcu_die") [.var "_t3"])]) (.skip))]) (.skip)), (.prim none (.ext "uatomic_or_mo") [.fieldAddr (.var "wait") "state", .cst "URCU_WAIT_TEARDOWN" (4)])]
+  block [(.prim (some "_t1") .uload [.fieldAddr (.var "wait") "state", .cst "CMM_RELAXED" (0)]), (.ifte (.bin .eq (.var "_t1") (.cst "URCU_WAIT_WAITING" (0))) (.skip) (.prim none (.ext "abort") [])), (.prim none .ustore [.fieldAddr (.var "wait") "state", .cst "URCU_WAIT_WAKEUP" (1), .cst "CMM_RELEASE" (3)]), (.prim (some "_t2") .uload [.fieldAddr (.var "wait") "state", .cst "CMM_RELAXED" (0)]), (.ifte (.un .lnot (.bin .band (.var "_t2") (.cst "URCU_WAIT_RUNNING" (2)))) (block [(.prim (some "_t3") (.ext "futex_noasync") [.fieldAddr (.var "wait") "state", .cst "FUTEX_WAKE" (1), .lit 1, .null, .null, .lit 0]), (.ifte (.bin .lt (.var "_t3") (.lit 0)) (block [(.prim (some "_t4") (.ext "errno") []), (.prim none (.ext "urcu_die") [.var "_t4"])]) (.skip))]) (.skip)), (.prim none .uor [.fieldAddr (.var "wait") "state", .cst "URCU_WAIT_TEARDOWN" (4), .cst "CMM_RELEASE" (3)])]
 def «urcu_adaptative_wake_up.params» : List String := ["wait"]
 
 /-- `urcu_adaptative_busy_wait` (src/urcu-wait.h) -/
 def «urcu_adaptative_busy_wait» : Stmt :=
-  block [(.assign "_goto_skip_futex_wait" (.lit 0)), (.prim none .rmb []), (.assign "i" (.lit 0)), (.loop (.ifte (.bin .lt (.var "i") (.cst "URCU_WAIT_ATTEMPTS" (1000))) (block [(.prim (some "_t1") .uload [.fieldAddr (.var "wait") "state", .cst "CMM_ACQUIRE" (2)]), (.ifte (.bin .ne (.var "_t1") (.cst "URCU_WAIT_WAITING" (0))) (block [(.assign "_goto_skip_futex_wait" (.lit 1)), (.brk)]) (.skip)), (.ifte (.var "_goto_skip_futex_wait") (.brk) (.prim none .relax [])), (.ifte (.var "_goto_skip_futex_wait") (.brk) (block [(.assign "_t2" (.var "i")), (.assign "i" (.bin .add (.var "i") (.lit 1)))]))]) (.brk))), (.ifte (.var "_goto_skip_futex_wait") (.skip) (.loop (block [(.prim (some "_t3") .uload [.fieldAddr (.var "wait") "state", .cst "CMM_ACQUIRE" (2)]), (.ifte (.bin .eq (.var "_t3") (.cst "URCU_WAIT_WAITING" (0))) (block [(.prim (some "_t4") (.ext "futex_noasync") [.fieldAddr (.var "wait") "state", .cst "FUTEX_WAIT" (0), .cst "URCU_WAIT_WAITING" (0), .null, .null, .lit 0]), (.ifte (.un .lnot (.var "_t4")) (.cont) (.skip)), (.prim (some "_t5") (.ext "errno") []), (.assign "_t6" (.var "_t5")), (.ifte (.bin .eq (.var "_t6") (.cst "EAGAIN" (11))) (block [(.assign "_goto_skip_futex_wait" (.lit 1)), (.brk)]) (.ifte (.bin .eq (.var "_t6") (.cst "EINTR" (4))) (.skip) (block [(.prim (some "_t7") (.ext "errno") []), (.prim none (.ext "urcu_die") [.var "_t7"])])))]) (.brk))]))), (.assign "_goto_skip_futex_wait" (.lit 0)), (.prim none .uor [.fieldAddr (.var "wait") "state", .cst "URCU_WAIT_RUNNING" (2), .cst "CMM_RELAXED" (0)]), (.assign "i" (.lit 0)), (.loop (.ifte (.bin .lt (.var "i") (.cst "URCU_WAIT_ATTEMPTS" (1000))) (block [(.prim (some "_t8") .uload [.fieldAddr (.var "wait") "state", .cst "CMM_RELAXED" (0)]), (.ifte (.bin .band (.var "_t8") (.cst "URCU_WAIT_TEARDOWN" (4))) (.brk) (.skip)), (.prim none .relax []), (.assign "_t9" (.var "i")), (.assign "i" (.bin .add (.var "i") (.lit 1)))]) (.brk))), (.loop (block [(.prim (some "_t10") .uload [.fieldAddr (.var "wait") "state", .cst "CMM_ACQUIRE" (2)]), (.ifte (.un .lnot (.bin .band (.var "_t10") (.cst "URCU_WAIT_TEARDOWN" (4)))) (.prim none (.ext "poll") [.null, .lit 0, .lit 10]) (.brk))]))]
+  block [(.assign "_goto_skip_futex_wait" (.lit 0)), (.prim none .rmb []), (.assign "i" (.lit 0)), (.loop (.ifte (.bin .lt (.var "i") (.cst "URCU_WAIT_ATTEMPTS" (1000))) (block [(.prim (some "_t1") .uload [.fieldAddr (.var "wait") "state", .cst "CMM_ACQUIRE" (2)]), (.ifte (.bin .ne (.var "_t1") (.cst "URCU_WAIT_WAITING" (0))) (block [(.assign "_goto_skip_futex_wait" (.lit 1)), (.brk)]) (.skip)), (.ifte (.var "_goto_skip_futex_wait") (.brk) (.prim none .relax [])), (.ifte (.var "_goto_skip_futex_wait") (.brk) (block [(.assign "_t2" (.var "i")), (.assign "i" (.bin .add (.var "i") (.lit 1)))]))]) (.brk))), (.ifte (.var "_goto_skip_futex_wait") (.skip) (.loop (block [(.prim (some "_t3") .uload [.fieldAddr (.var "wait") "state", .cst "CMM_ACQUIRE" (2)]), (.ifte (.bin .eq (.var "_t3") (.cst "URCU_WAIT_WAITING" (0))) (block [(.prim (some "_t4") (.ext "futex_noasync") [.fieldAddr (.var "wait") "state", .cst "FUTEX_WAIT" (0), .cst "URCU_WAIT_WAITING" (0), .null, .null, .lit 0]), (.ifte (.un .lnot (.var "_t4")) (.cont) (.skip)), (.prim (some "_t5") (.ext "errno") []), (.assign "_t6" (.var "_t5")), (.ifte (.bin .eq (.var "_t6") (.cst "EAGAIN" (11))) (block [(.assign "_goto_skip_futex_wait" (.lit 1)), (.brk)]) (.ifte (.bin .eq (.var "_t6") (.cst "EINTR" (4))) (.skip) (block [(.prim (some "_t7") (.ext "errno") []), (.prim none (.ext "urcu_die") [.var "_t7"])])))]) (.brk))]))), (.assign "_goto_skip_futex_wait" (.lit 0)), (.prim none .uor [.fieldAddr (.var "wait") "state", .cst "URCU_WAIT_RUNNING" (2), .cst "CMM_RELAXED" (0)]), (.assign "i" (.lit 0)), (.loop (.ifte (.bin .lt (.var "i") (.cst "URCU_WAIT_ATTEMPTS" (1000))) (block [(.prim (some "_t8") .uload [.fieldAddr (.var "wait") "state", .cst "CMM_RELAXED" (0)]), (.ifte (.bin .band (.var "_t8") (.cst "URCU_WAIT_TEARDOWN" (4))) (.brk) (.skip)), (.prim none .relax []), (.assign "_t9" (.var "i")), (.assign "i" (.bin .add (.var "i") (.lit 1)))]) (.brk))), (.loop (block [(.prim (some "_t10") .uload [.fieldAddr (.var "wait") "state", .cst "CMM_ACQUIRE" (2)]), (.ifte (.un .lnot (.bin .band (.var "_t10") (.cst "URCU_WAIT_TEARDOWN" (4)))) (.prim none (.ext "poll") [.null, .lit 0, .lit 10]) (.brk))])), (.prim (some "_t11") .uload [.fieldAddr (.var "wait") "state", .cst "CMM_RELAXED" (0)]), (.ifte (.bin .band (.var "_t11") (.cst "URCU_WAIT_TEARDOWN" (4))) (.skip) (.prim none (.ext "abort") []))]
 def «urcu_adaptative_busy_wait.params» : List String := ["wait"]
 
 /-- `call_rcu_wait` (src/urcu-call-rcu-impl.h) -/
@@ -476,5 +481,5 @@ def «bp.urcu_bp_synchronize_rcu.params» : List String := []
 
 /-- functions the translator could not express in the IR subset (listed, never defaulted) -/
 def untranslated : List String := []
-def translated : List String := ["urcu_memb_smp_mb_slave", "_urcu_memb_read_lock_update", "_urcu_memb_read_lock", "urcu_common_wake_up_gp", "_urcu_memb_read_unlock_update_and_wakeup", "_urcu_memb_read_unlock", "_urcu_memb_read_ongoing", "_urcu_mb_read_lock_update", "_urcu_mb_read_lock", "_urcu_mb_read_unlock_update_and_wakeup", "_urcu_mb_read_unlock", "_urcu_mb_read_ongoing", "urcu_bp_smp_mb_slave", "_urcu_bp_read_lock_update", "_urcu_bp_read_lock", "_urcu_bp_read_unlock", "_urcu_bp_read_ongoing", "_urcu_qsbr_read_lock", "_urcu_qsbr_read_unlock", "_urcu_qsbr_read_ongoing", "urcu_qsbr_wake_up_gp", "_urcu_qsbr_quiescent_state_update_and_wakeup", "_urcu_qsbr_quiescent_state", "_urcu_qsbr_thread_offline", "_urcu_qsbr_thread_online", "___cds_wfs_end", "_cds_wfs_push", "___cds_wfs_node_sync_next", "___cds_wfs_pop", "___cds_wfs_pop_all", "_cds_wfs_empty", "___cds_lfs_empty_head", "_cds_lfs_push", "___cds_lfs_pop", "___cds_lfs_pop_all", "_cds_lfs_empty", "___cds_wfcq_append", "_cds_wfcq_enqueue", "_cds_wfcq_empty", "___cds_wfcq_busy_wait", "___cds_wfcq_node_sync_next", "_cds_wfcq_node_init_atomic", "___cds_wfcq_dequeue_with_state", "___cds_wfcq_splice", "_cds_lfq_enqueue_rcu", "make_dummy", "enqueue_dummy", "rcu_free_dummy", "_cds_lfq_dequeue_rcu", "urcu_ref_get_safe", "urcu_ref_put", "urcu_ref_get_unless_zero", "urcu_wait_add", "urcu_move_waiters", "urcu_wait_set_state", "urcu_wait_node_init", "urcu_adaptative_wake_up", "urcu_adaptative_busy_wait", "call_rcu_wait", "call_rcu_wake_up", "call_rcu_completion_wait", "call_rcu_completion_wake_up", "wake_call_rcu_thread", "_cds_wfcq_node_init", "_call_rcu", "futex_wait", "futex_wake_up", "wake_worker_thread", "wake_up_defer", "wait_defer", "_cds_wfs_first", "___cds_wfs_next", "_cds_wfs_next_blocking", "urcu_wake_all_waiters", "memb.smp_mb_master", "memb.wait_gp", "urcu_common_reader_state", "memb.wait_for_readers", "memb.synchronize_rcu", "mb.smp_mb_master", "mb.wait_gp", "mb.wait_for_readers", "mb.synchronize_rcu", "qsbr.wait_gp", "urcu_qsbr_reader_state", "qsbr.wait_for_readers", "qsbr.urcu_qsbr_read_ongoing", "qsbr.urcu_qsbr_thread_offline", "qsbr.urcu_qsbr_thread_online", "qsbr.urcu_qsbr_synchronize_rcu", "bp.smp_mb_master", "urcu_bp_reader_state", "bp.wait_for_readers", "bp.urcu_bp_synchronize_rcu"]
+def translated : List String := ["urcu_memb_smp_mb_slave", "_urcu_memb_read_lock_update", "_urcu_memb_read_lock", "urcu_common_wake_up_gp", "_urcu_memb_read_unlock_update_and_wakeup", "_urcu_memb_read_unlock", "_urcu_memb_read_ongoing", "_urcu_mb_read_lock_update", "_urcu_mb_read_lock", "_urcu_mb_read_unlock_update_and_wakeup", "_urcu_mb_read_unlock", "_urcu_mb_read_ongoing", "urcu_bp_smp_mb_slave", "_urcu_bp_read_lock_update", "_urcu_bp_read_lock", "_urcu_bp_read_unlock", "_urcu_bp_read_ongoing", "_urcu_qsbr_read_lock", "_urcu_qsbr_read_unlock", "_urcu_qsbr_read_ongoing", "urcu_qsbr_wake_up_gp", "_urcu_qsbr_quiescent_state_update_and_wakeup", "_urcu_qsbr_quiescent_state", "_urcu_qsbr_thread_offline", "_urcu_qsbr_thread_online", "___cds_wfs_end", "_cds_wfs_push", "___cds_wfs_node_sync_next", "___cds_wfs_pop", "___cds_wfs_pop_all", "_cds_wfs_empty", "___cds_lfs_empty_head", "_cds_lfs_push", "___cds_lfs_pop", "___cds_lfs_pop_all", "_cds_lfs_empty", "___cds_wfcq_append", "_cds_wfcq_enqueue", "_cds_wfcq_empty", "___cds_wfcq_busy_wait", "___cds_wfcq_node_sync_next", "_cds_wfcq_node_init_atomic", "___cds_wfcq_dequeue_with_state", "___cds_wfcq_splice", "_cds_lfq_enqueue_rcu", "make_dummy", "enqueue_dummy", "rcu_free_dummy", "_cds_lfq_dequeue_rcu", "urcu_ref_get_safe", "urcu_ref_put", "urcu_ref_get_unless_zero", "urcu_wait_add", "urcu_move_waiters", "urcu_wait_set_state", "_cds_wfs_node_init", "urcu_wait_node_init", "urcu_adaptative_wake_up", "urcu_adaptative_busy_wait", "call_rcu_wait", "call_rcu_wake_up", "call_rcu_completion_wait", "call_rcu_completion_wake_up", "wake_call_rcu_thread", "_cds_wfcq_node_init", "_call_rcu", "futex_wait", "futex_wake_up", "wake_worker_thread", "wake_up_defer", "wait_defer", "_cds_wfs_first", "___cds_wfs_next", "_cds_wfs_next_blocking", "urcu_wake_all_waiters", "memb.smp_mb_master", "memb.wait_gp", "urcu_common_reader_state", "memb.wait_for_readers", "memb.synchronize_rcu", "mb.smp_mb_master", "mb.wait_gp", "mb.wait_for_readers", "mb.synchronize_rcu", "qsbr.wait_gp", "urcu_qsbr_reader_state", "qsbr.wait_for_readers", "qsbr.urcu_qsbr_read_ongoing", "qsbr.urcu_qsbr_thread_offline", "qsbr.urcu_qsbr_thread_online", "qsbr.urcu_qsbr_synchronize_rcu", "bp.smp_mb_master", "urcu_bp_reader_state", "bp.wait_for_readers", "bp.urcu_bp_synchronize_rcu"]
 end UrcuVerif.Gen.Src
